@@ -152,7 +152,7 @@ MODES = ["yes", "no", "deps", "forced", "forced-deps", "forced-fallback", "packa
 
 def helper(path, root=ROOT, env=None):
     cmd = ["/venv/bin/python", os.path.abspath(__file__), "--helper", "snapshot", path, root]
-    r = subprocess.run(cmd, env=proj.bob_env(env), stdout=subprocess.PIPE, stderr=subprocess.PIPE, timeout=300, text=True)
+    r = subprocess.run(cmd, env=proj.bob_env(env), stdout=subprocess.PIPE, stderr=subprocess.PIPE, timeout=1500, text=True)
     if r.returncode != 0:
         return {"error": (r.stderr or r.stdout)[-2000:]}
     try:
@@ -217,6 +217,9 @@ def parse_output(out):
             if mm:
                 evs.append(("skipsame", mm.group(1), None)); continue
             evs.append(("package", rest.split(" ")[0], None))
+        elif kind == "BUILD":
+            if not rest.startswith("skipped"):
+                evs.append(("build", rest.split(" ")[0], None))
         elif kind == "UPLOAD":
             path, _, resl = rest.partition(" .. ")
             if rest.startswith("skipped"):
@@ -490,7 +493,7 @@ def execute_history(h, rng):
             rd = os.path.join(base, "ref%d" % i)
             os.makedirs(rd)
             proj.write_project(no_archive(desc), rd)
-            rc, out = proj.run_bob(rd, ["dev", "--download=no", ROOT], env={"FPHOST": "h1"})
+            rc, out = proj.run_bob(rd, ["dev", "--download=no", ROOT], env={"FPHOST": "h1"}, timeout=1500)
             if rc != 0:
                 h.refs[i] = {"error": out[-600:]}
                 continue
@@ -516,7 +519,7 @@ def execute_history(h, rng):
                     step["regex"] = regex
                 proj.write_project(with_archive(desc, arch, h.flags[w]), wsdir[w])
                 env = {"FPHOST": h.fph[w]}
-                rc, out = proj.run_bob(wsdir[w], bob_args(step, regex), env=env)
+                rc, out = proj.run_bob(wsdir[w], bob_args(step, regex), env=env, timeout=1500)
                 snap = helper(wsdir[w], env=env)
                 rec.update({"rc": rc, "out": out, "snap": snap, "wsabs": wsdir[w], "fphost": h.fph[w],
                             "regex": regex if step["mode"] == "packages" else None,
@@ -534,8 +537,12 @@ def execute_history(h, rng):
                 if src is None:
                     continue
                 ai = h.records.index(src)
+                # only packages that the uploader's last run built or confirmed (the recorded Build-Id is
+                # then the Build-Id of the node in that run's tree)
+                confirmed = {e[1] for e in parse_output(src["out"])[0] if e[0] in ("package", "skipsame")}
                 built = [(st, pk) for st, pk in sorted(src["snap"]["packages"].items())
                          if pk["ws"]["package"].get("kind") == 1 and pk["ws"]["package"].get("bid")
+                         and pk["ws"]["package"]["path"] in confirmed and src["rc"] == 0
                          and os.path.exists(art_path(arch, pk["ws"]["package"]["bid"]))]
                 if "target" in step and kind != "plant":          # replay
                     built = [b for b in built if b[0] == step["target"]]
@@ -548,11 +555,7 @@ def execute_history(h, rng):
                     if not cands:
                         continue
                     st, pk = rng.choice(cands)
-                    others = [q["ws"]["checkout"]["result"] for q in src["snap"]["packages"].values()
-                              if q["ws"].get("checkout", {}).get("result") and q is not pk
-                              and len(q["ws"]["checkout"]["result"]) == 40]
-                    val = step.get("value") or (rng.choice(others) if others and rng.random() < 0.5 else
-                                                hashlib.sha1(b"wrong%d" % rng.randrange(1000)).hexdigest())
+                    val = step.get("value") or hashlib.sha1(b"wrong%d" % rng.randrange(1000)).hexdigest()
                     with open(art_path(arch, pk["steps"]["checkout"]["live"], ".buildid"), "wb") as f:
                         f.write(bytes.fromhex(val))
                     step.update({"target": st, "value": val})
@@ -731,6 +734,8 @@ class ModelHistory:
                 else:
                     unknown.append((kind, key))
                 continue
+            if kind == "build":
+                continue                          # the build step is folded into its package node
             if kind in ("checkout-other", "upload-noaudit"):
                 unknown.append((kind, key)); continue
             if key not in nodes:
@@ -815,8 +820,13 @@ def compare(mh, model_obs):
             fields = ("kind", "has_result")
         else:
             fields = ("kind", "bid_true", "has_result", "local", "in_archive")
+        touched = {e[1] for e in ex["trace"] if e[0] in (4, 5, 6, 7) and (e[0] != 4 or e[2] == 1)}
         for a, b in zip(ex["pkgs"], mo["pkgs"]):
             for f in ("id",) + fields:
+                if f == "local" and a["id"] not in touched:
+                    # a workspace left over from another project state: the model's contents are free
+                    # terms over variant ids and say nothing about accidental equality of trees
+                    continue
                 if a[f] is not None and a[f] != b[f]:
                     diffs.append((k, "state:" + f, {"package": a["stack"], "impl": a[f], "model": b[f]}))
         if len(ex["pkgs"]) != len(mo["pkgs"]):
@@ -882,16 +892,25 @@ def oracle_history(ctx, h, mh):
                     ctx.violation("dist-differs-from-local-build:" + "+".join(sorted(set(how))) + (":after-restart" if any(e[0] == "restart" for e in evs) else ""),
                                   "package %s (%s) in workspace %s, mode %s: dist tree %s, local clean build %s" % (
                                       n["stack"], ",".join(how), step["ws"], step["mode"], w.get("hash"), want), replay)
-        # identical state already in the archive => nothing is built
+        # identical state already in the archive => nothing is built -- also when wrong live-build-id
+        # translations force restarts on the way
         rootref = ref["packages"][ROOT]["ws"]["package"].get("bid")
-        clean_hist = not any(r["step"]["op"] == "tamper" and r.get("applied") and r["step"]["kind"] != "wipeB" for r in h.records[:k])
+        clean_hist = not any(r["step"]["op"] == "tamper" and r.get("applied") and r["step"]["kind"] not in ("wipeB", "wronglive")
+                             for r in h.records[:k])
         if step["mode"] in ("yes", "forced", "forced-fallback") and "download" in h.flags[step["ws"]] and not step["force"] \
                 and portable(root) and (rec["fphost"] == "h1" or not any(m["fingerprinted"] for m in cone(root).values())) \
-                and rootref and art_path("", rootref) in arch_now and clean_hist:
+                and rootref and art_path("", rootref) in arch_now and clean_hist \
+                and not any(it[0] == "dep" and it[2] for m in cone(root).values() for it in m["items"]):
+            # (weakly used tools are excluded: their provider may have to be built although the user's
+            #  Build-Id, which ignores it, is in the archive)
             ctx.count("oracle:identical-state-in-archive")
+            restarted = any(e[0] == "restart" for e in evs)
+            if restarted:
+                ctx.count("oracle:identical-state-in-archive:with-restart")
             if ex["counters"] and ex["counters"][1] != 0:
-                ctx.violation("identical-state-in-archive-but-packages-built",
-                              "the archive holds the artifact of the identical project state, yet %d packages were built" % ex["counters"][1], replay)
+                ctx.violation("restart-does-not-retry-downloads" if restarted else "identical-state-in-archive-but-packages-built",
+                              "the archive holds the artifact of the identical project state, yet %d packages were built%s" % (
+                                  ex["counters"][1], " after a restart due to wrongly predicted sources" if restarted else ""), replay)
         # equal Build-Id <=> equal id-relevant inputs
         if not wronglive:
             memo = {}
@@ -921,10 +940,16 @@ def oracle_history(ctx, h, mh):
 def ids_cases(h):
     """real Build-Ids of locally built steps, to be recomputed by Ids/Model.v build_id"""
     cases = []
-    snaps = [(r["snap"], "run%d" % k) for k, r in enumerate(h.records) if r["step"]["op"] == "run" and not r.get("skipped") and "packages" in r.get("snap", {})]
-    snaps += [(s, "ref%d" % i) for i, s in h.refs.items() if "packages" in s]
+    snaps = []
+    for k, r in enumerate(h.records):
+        if r["step"]["op"] == "run" and not r.get("skipped") and "packages" in r.get("snap", {}) and r.get("rc") == 0:
+            evs = parse_output(r["out"])[0]
+            if any(e[0] == "restart" for e in evs):
+                continue
+            snaps.append((r["snap"], "run%d" % k, {e[1] for e in evs if e[0] in ("build", "package")}))
+    snaps += [(s, "ref%d" % i, None) for i, s in h.refs.items() if "packages" in s]
     seen = set()
-    for snap, tag in snaps:
+    for snap, tag, executed in snaps:
         pk = snap["packages"]
 
         def pbid(stack):
@@ -939,6 +964,8 @@ def ids_cases(h):
             for kind, st, sw in (("build", B, bw), ("package", P, w)):
                 if not st["valid"] or not sw.get("audit") or "bid" not in sw["audit"]:
                     continue
+                if executed is not None and sw.get("path") not in executed:
+                    continue          # audit trail and inputs may stem from an earlier project state
                 bid = sw["audit"]["bid"]
                 args = []
                 for a in st["args"]:
@@ -1216,6 +1243,8 @@ def run(ctx):
         hs.append(history_from_json(len(hs), c))
         ctx.count("corpus")
     n_hist = ctx.n(20, 220)          # about 30 % of the generated projects are rejected by the parser (cheaply)
+    if os.environ.get("C07_HISTORIES") is not None:      # development aid: C07_HISTORIES=0 runs the corpus only
+        n_hist = int(os.environ["C07_HISTORIES"])
     for i in range(n_hist):
         hs.append(make_history(len(hs), rng.randrange(1 << 30), ctx.n(3, 4), ctx.n(3, 5)))
     process(ctx, hs)
